@@ -3,6 +3,7 @@ import Driver.SearchState
 import TakVerif.Impl.Alloc
 import TakVerif.Impl.Book
 import TakVerif.Impl.Bot
+import Driver.SolverState
 namespace Driver
 open Tak
 
@@ -18,6 +19,8 @@ structure St where
   -- C04 (opening book) session: the book built by the last `book`/`realbook` op
   symBook : Option Tak.Book := none
   bot : Option Tak.Bot.Session := none      -- C07: the bot game of the current `case`
+  solvers : SolverSession := {}           -- C06: cache of the last exactly solved game graph
+deriving Inhabited
 
 /-- a handler returns `none` when the op is not its own -/
 abbrev Handler := St → String → List String → Option (St × String)
